@@ -10,6 +10,7 @@ from __future__ import annotations
 
 import fractions
 import os
+import sys
 import time
 import zlib
 import traceback
@@ -258,6 +259,33 @@ def cvc5_check(smt2, timeout_ms=10000):
         return "unknown"
 
 
+def z3_fresh_check(smt2, timeout_ms=10000):
+    """The same query in a fresh z3 process (the z3-solver wheel's own executable, the engine that is also linked in-process): the
+    running time of z3 on one formula varies with what the process has solved before; a fresh process is the reproducible setting.
+    Returns 'sat' | 'unsat' | 'unknown'."""
+    import shutil
+    import subprocess
+    import tempfile
+
+    exe = shutil.which("z3-new") or os.path.join(os.path.dirname(sys.executable), "z3")
+    if not exe or not os.path.exists(exe):
+        return "unknown"
+    try:
+        with tempfile.NamedTemporaryFile("w", suffix=".smt2", delete=False, dir=os.environ.get("TMPDIR") or None) as f_:
+            f_.write(smt2)
+            name = f_.name
+        try:
+            out = subprocess.run([exe, "-T:%d" % max(1, timeout_ms // 1000), name], capture_output=True, text=True, timeout=timeout_ms / 1000 + 10).stdout
+        finally:
+            os.unlink(name)
+        for ln in out.splitlines():
+            if ln.strip() in ("sat", "unsat", "unknown"):
+                return ln.strip()
+        return "unknown"
+    except Exception:
+        return "unknown"
+
+
 def discharge(ob, inputs, both=False, timeout_ms=None):
     """Decide one obligation.  status in {'discharged','refuted','unknown'} (mustfail: inverted)."""
     t0 = time.time()
@@ -307,7 +335,17 @@ def discharge(ob, inputs, both=False, timeout_ms=None):
                 backend = "z3(ematching)"
                 break
     if r == z3.unknown:
-        r = s.check()
+        if timeout_ms is not None and timeout_ms >= 30000:
+            # a long explicit budget: a short in-process attempt, then the same query in a fresh z3 process with the full budget
+            s1 = z3.Solver()
+            s1.set("timeout", 12000)
+            for c in s.assertions():
+                s1.add(c)
+            r = s1.check()
+            if r != z3.unknown:
+                s = s1
+        else:
+            r = s.check()
     res = str(r)
     if r == z3.unknown:
         # retry with different seeds, then cvc5
@@ -322,7 +360,11 @@ def discharge(ob, inputs, both=False, timeout_ms=None):
                 r, s, res = r2, s2, str(r2)
                 break
         if r == z3.unknown:
-            cres = cvc5_check(s.to_smt2(), Z3_TIMEOUT_MS)
+            fres = z3_fresh_check(s.to_smt2(), Z3_TIMEOUT_MS)
+            if fres in ("sat", "unsat"):
+                res, backend = fres, "z3(fresh process)"
+        if res == "unknown":
+            cres = cvc5_check(s.to_smt2(), min(Z3_TIMEOUT_MS, 30000))
             if cres in ("sat", "unsat"):
                 res, backend = cres, "cvc5"
     elif both and zlib.crc32(ob.name.encode()) % XCHECK_EVERY == 0:
@@ -337,6 +379,12 @@ def discharge(ob, inputs, both=False, timeout_ms=None):
             backend = "z3+cvc5"
     ob.backend = backend
     ob.time = time.time() - t0
+    if os.environ.get("PYVC_DUMP_SLOW") and (res == "unknown" or ob.time > 20):
+        try:
+            with open(os.path.join(os.environ["PYVC_DUMP_SLOW"], "%s.%s.smt2" % ("".join(ch if ch.isalnum() else "_" for ch in ob.name)[-120:], res)), "w") as f_:
+                f_.write(s.to_smt2())
+        except Exception:
+            pass
     if ob.kind in ("cover", "mustfail"):
         # satisfiable is the good outcome
         if res == "sat":
